@@ -7,6 +7,8 @@
 
 Replay specs
   C08|<family>|<mode>|<history>          e.g.  C08|chain|serial|b:all e:s1 b:all
+                                         <family>@device-agnostic / <family>@checksum-only: the same family with that
+                                         `file-system:` mode in the client section of every description
   C09a|<family>|<mode>|<history>         null build after the history
   C09b|<pair id>|<mode>                  definition D -> D' end to end
   C09c|<pair id>                         in-process signatures of D and D'
@@ -285,7 +287,9 @@ def classify_c08(fam, desc, history, wrong):
             return "C08.allow-modified-outputs-command-not-rerun-on-input-change"
     shape = "first-build" if sum(1 for e in history if e.startswith("b:")) == 1 else "after-" + ("".join(kinds) or "nothing")
     what = "missing" if got is None else "stale-or-wrong"
-    return "C08.other-%s-%s-%s" % (what, kind, shape)
+    # (the named matchers above describe defects that do not depend on the client file-system mode; anything else
+    # found under a non-default mode is kept apart from the default mode's catch-all)
+    return "C08.other-%s-%s-%s%s" % (what, kind, shape, "-fs-" + fam.fs if fam.fs else "")
 
 
 def classes_of(prefix, fam, mode, h, null_check):
@@ -351,6 +355,8 @@ def one_history(res, prefix, fam, mode, h, null_check, verbose=False):
         obs = w.run(h)
         last = obs[-1]
         res.count("evaluations")
+        if fam.fs:
+            res.count("evaluations_file_system_" + fam.fs.replace("-", "_"))
         res.count("builds", len(obs))
         nb = len(obs)
         if last["rc"] == 0:
@@ -376,7 +382,7 @@ def one_history(res, prefix, fam, mode, h, null_check, verbose=False):
             print(last["out"])
         if not null_check:
             if last["rc"] == 0 and not last["expect"].ok:
-                res.violate("C08.success-where-clean-build-fails",
+                res.violate("C08.success-where-clean-build-fails" + ("-fs-" + fam.fs if fam.fs else ""),
                             "%s [%s] %s: build succeeded although a clean build fails (%s)" % (
                                 fam.id, mode, " ".join(h), last["expect"].why), spec)
             elif last["wrong"]:
@@ -604,13 +610,21 @@ def phases_for(prop, tier):
     quickf = [f for f in allf if f.quick]
     deepf = [f for f in allf if f.quick or f.deep]
     if prop == "C08":
+        fsq = F.fs_families(F.FS_QUICK)
         if tier == "quick":
-            return ([(allf, 1, 3, False), (quickf, 4, 4, False)],
-                    "histories of <= 3 events for all %d families plus histories of exactly 4 events for the %d quick families" % (
-                        len(allf), len(quickf)))
-        return ([(allf, 1, 4, True), (deepf, 5, 5, False)],
+            return ([(allf, 1, 3, False), (quickf, 4, 4, False), (fsq, 1, 3, False)],
+                    "histories of <= 3 events for all %d families plus histories of exactly 4 events for the %d quick families; "
+                    "and, with `file-system: device-agnostic` and with `file-system: checksum-only` in the client section of "
+                    "every description (same histories, same oracle, clean-build cross-check in the same mode), histories of "
+                    "<= 3 events for the %d families %s" % (len(allf), len(quickf), len(F.FS_QUICK), ", ".join(F.FS_QUICK)))
+        fsall = F.fs_families()
+        return ([(allf, 1, 4, True), (deepf, 5, 5, False), (fsall, 1, 3, True), (fsq, 4, 4, False)],
                 "histories of <= 4 events (with both same-size rewrites e: and appends a: of sources) for all %d families, "
-                "plus histories of exactly 5 events (e: only) for the %d deep families" % (len(allf), len(deepf)))
+                "plus histories of exactly 5 events (e: only) for the %d deep families; and, with `file-system: "
+                "device-agnostic` and with `file-system: checksum-only` in the client section of every description (same "
+                "histories, same oracle, clean-build cross-check in the same mode), histories of <= 3 events (e: and a:) for "
+                "all %d families plus histories of exactly 4 events (e: only) for the %d families %s" % (
+                    len(allf), len(deepf), len(allf), len(F.FS_QUICK), ", ".join(F.FS_QUICK)))
     if prop == "C09":
         if tier == "quick":
             return [(allf, 1, 3, False)], "histories of <= 3 events for all %d families" % len(allf)
@@ -621,9 +635,12 @@ def phases_for(prop, tier):
 
 
 def find_family(fid):
+    base, _, fs = fid.partition("@")
+    if fs and fs not in F.FS_MODES:
+        raise HarnessError("unknown file-system mode in family " + fid)
     for f in F.all_families():
-        if f.id == fid:
-            return f
+        if f.id == base:
+            return f.with_fs(fs) if fs else f
     raise HarnessError("unknown family " + fid)
 
 
